@@ -10,7 +10,7 @@ go build -o bin/check ./cmd/check
 go test -count=1 ./mc
 # compile every harness once (with its mcgen overlay) so that the first check
 # does not pay for a cold build cache
-ids=$(cat harness/*/spec.json checks/*/spec.json 2>/dev/null | grep -o '"id": *"[A-Z0-9]*"' | grep -o 'C[0-9]*' | sort -u)
+ids=$(python3 -c "import json;print(' '.join(c['property_id'] for c in json.load(open('MANIFEST.json'))['checks']))")
 for id in $ids; do
   bin/check "$id" --build-only || { echo "setup: building $id failed"; exit 1; }
 done
